@@ -151,11 +151,14 @@ def aggregate_records(sid, ctxname, bound, rng):
   gb = {'1': 1, '2^64': 2 ** 64, '2^128': 2 ** 128}[bound]
   c1, c2 = ra.CheckGCD(), ra.CheckGCDN1(gcd_bound=gb)
   protos = [a.proto for a in arts]
+  # history: the first key was already checked alone (its entries exist, negative) before its partners arrive
+  r0 = checks.record_call(sid + '-gcd-alone', 'rsa', arts[:1], lambda: c1.Check(protos[:1]), ['CheckGCD'], {arts[0].aid: arts[0].meta['crit']})
+  r00 = checks.record_call(sid + '-gcdn1-alone', 'rsa', arts[:1], lambda: c2.Check(protos[:1]), ['CheckGCDN1'], {arts[0].aid: arts[0].meta['crit']})
   r1 = checks.record_call(sid + '-gcd', 'rsa', arts, lambda: c1.Check(protos), ['CheckGCD'], {a.aid: a.meta['crit'] for a in arts})
   r2 = checks.record_call(sid + '-gcdn1', 'rsa', arts, lambda: c2.Check(protos), ['CheckGCDN1'], {a.aid: a.meta['crit'] for a in arts})
-  for r in (r1, r2):
+  for r in (r0, r00, r1, r2):
     r['scenario'] = {'context': ctxname, 'gcd_bound': bound}
-  return [r1, r2]
+  return [r0, r00, r1, r2]
 
 
 def run_cell(args):
